@@ -3,7 +3,22 @@
 SM = "github.com/xjslang/xjs/sourcemap."
 VLQ_REDIRECT = ["-redirect", SM + "encodeVLQ=" + SM + "zzVLQOpaque"]
 
+LX = "github.com/xjslang/xjs/lexer."
+
 CHECKS = {
+    "C10": {
+        "assumptions": [
+            "one NextToken step from an arbitrary cursor state satisfying the invariant INV (readPosition = position+1, CurrentChar = input[position] or 0 at the end, Line/Column arbitrary in [0,2^30]); stale hadNewlineBefore/leadingComments arbitrary",
+            "window: the remaining input is any byte string of length 0..K (end of input anywhere), or longer than K with the step's lexeme+trivia+1 lookahead inside the first K bytes; paths needing more are cut and counted (outside the claim)",
+            "induction over steps (post-state satisfies INV, cursor never leaves the source, at least one byte consumed unless at the end) extends the step result to any number of tokens and any input length; base case ZZH10Init",
+            "bytes before the cursor: 0..prefix arbitrary bytes (the step never reads them); independence from the absolute offset beyond that is by inspection (all indexing is relative to position)",
+            "lone CR: don't care for the after-newline flag; comment entries compared modulo empty entries (blank-line markers)",
+        ],
+        "runs": [
+            {"harnesses": [LX + "ZZH10Init", LX + "ZZH10Step"], "witnesses": 60,
+             "quick": {"K": 6, "prefix": 0}, "thorough": {"K": 8, "prefix": 1}},
+        ],
+    },
     "C09": {
         "assumptions": [
             "VLQ codec: |n| <= 2^31 (property range); larger magnitudes outside the claim",
@@ -25,6 +40,11 @@ CHECKS = {
 }
 
 META = {
+    "C10": {
+        "text": "Inductive bounded symbolic model checking of the real lexer: one NextToken step is executed from an arbitrary valid cursor state over a window of K = 6 (quick) / 8 (thorough) symbolic bytes of any value (all 256^K windows, end of input anywhere). On every feasible path the solver discharges: start = first non-trivia byte (independent trivia scanner), progress, cursor inside the source, EOF exactly at the end and stable, end position, after-newline flag, comment texts, identifier/keyword/number slices and classification, and re-establishment of the cursor invariant - which makes the result hold for any number of tokens.",
+        "design_ref": "DESIGN.md §7 C10",
+        "note": "Trusted: xsym's SSA translation (witness paths replayed natively each run), z3, the reference trivia scanner R7 and position function R6. Outside the claim: a single lexeme together with its leading trivia longer than K bytes (counted as cut paths); the property's fuzzing clause is another technique.",
+    },
     "C09": {
         "text": "Bounded symbolic model checking of the real sourcemap package: encodeVLQ is decided for every integer |n| <= 2^31 (7 paths x sign, solver-quantified over n); encodeMappings for every list of <= 3 (quick) / 4 (thorough) segments with arbitrary fields; every operation history of length <= 3 / 4 over the five builder operations with symbolic positions, advances, string bytes and names. The emitted mappings are decoded by an independent v3 decoder inside the same path and compared with the recorded absolute mappings.",
         "design_ref": "DESIGN.md §7 C09",
